@@ -121,8 +121,10 @@ macro_rules! lit_kind {
         Tgt {
             name: $name,
             conv: |m| <$t as FromMeta>::from_meta(m).map(|v| v.tk()),
-            bare: |e| match e {
-                Expr::Lit(l) if matches!(l.lit, $variant(_)) => Some(canon_of(e)),
+            // (a negative number followed by another item arrives as `-` applied to a literal: the
+            // same literal)
+            bare: |e| match lit_of(e) {
+                Some(l) if matches!(l, $variant(_)) => Some(canon_of(&l)),
                 _ => None,
             },
             quoted: None,
@@ -347,7 +349,7 @@ fn targets() -> Vec<Tgt> {
         Tgt {
             name: "Lit",
             conv: |m| <syn::Lit as FromMeta>::from_meta(m).map(|v| v.tk()),
-            bare: |e| matches!(e, Expr::Lit(_)).then(|| canon_of(e)),
+            bare: |e| lit_of(e).map(|l| canon_of(&l)),
             quoted: None,
             list: None,
             word_ok: false,
@@ -551,7 +553,9 @@ fn group_value_tokens(text: &str, depth: usize) -> Option<proc_macro2::TokenStre
     use proc_macro2::{Delimiter, Group, TokenStream, TokenTree};
     let toks: Vec<TokenTree> = text.parse::<TokenStream>().ok()?.into_iter().collect();
     let eq = toks.iter().position(|t| matches!(t, TokenTree::Punct(p) if p.as_char() == '='))?;
-    let mut value: Vec<TokenTree> = toks[eq + 1..].to_vec();
+    // (the value ends at the next top-level comma, if the item is followed by another one)
+    let end = toks.iter().enumerate().skip(eq + 1).find(|(_, t)| matches!(t, TokenTree::Punct(p) if p.as_char() == ',')).map(|(i, _)| i).unwrap_or(toks.len());
+    let mut value: Vec<TokenTree> = toks[eq + 1..end].to_vec();
     if value.is_empty() {
         return None;
     }
@@ -561,7 +565,7 @@ fn group_value_tokens(text: &str, depth: usize) -> Option<proc_macro2::TokenStre
         g.set_span(span);
         value = vec![TokenTree::Group(g)];
     }
-    Some(toks[..=eq].iter().cloned().chain(value).collect())
+    Some(toks[..=eq].iter().cloned().chain(value).chain(toks[end..].iter().cloned()).collect())
 }
 
 /// `name = [a, b, ..]` with the tokens of `a` inside `depth` invisible groups
@@ -612,7 +616,13 @@ fn prepare(frag: &str, rng: &mut Rng) -> Vec<Prepared> {
     let mut push = |text: String, spelling: &'static str, group: bool| {
         // a grouped spelling is made of tokens, as a `macro_rules!` fragment is: the value's tokens inside
         // an invisible group (twice for "...2"), then parsed like any attribute
-        let parsed = if group {
+        let parsed = if group && spelling.contains("in-list") {
+            // followed by another item the value is read by the expression parser, which keeps the group
+            group_value_tokens(&text, 1).and_then(|ts| NestedMeta::parse_meta_list(ts).ok()).and_then(|items| match items.into_iter().next() {
+                Some(NestedMeta::Meta(m)) => Some(m),
+                _ => None,
+            })
+        } else if group {
             group_value_tokens(&text, if spelling.ends_with('2') { 2 } else { 1 }).and_then(|ts| syn::parse2::<Meta>(ts).ok())
         } else {
             syn::parse_str::<Meta>(&text).ok()
@@ -636,6 +646,8 @@ fn prepare(frag: &str, rng: &mut Rng) -> Vec<Prepared> {
     let qs = quote_str(frag, rng);
     push(format!("x = {qs}"), "quoted", false);
     push(format!("x = {qs}"), "quoted-grouped", true);
+    push(format!("x = {qs}, zz = 1"), "quoted-grouped-in-list", true);
+    push(format!("x = {frag}, zz = 1"), "bare-grouped-in-list", true);
     if rng.chance(1, 4) {
         push(format!("x = {qs}"), "quoted-grouped2", true);
     }
